@@ -48,14 +48,16 @@ From Pory Require Import Sem2 SemTgt RenderSim RenderCheck WorkShape OrderPerm R
 (* For every script body that passes the source check: chunk ids are exactly 0 .. n-1; the strict targets - generated gotos,
    success edges of conditions, case and default entries - are chunks of the graph and never chunk 0; every other target
    (failure edges, break / continue destinations, return chunks) is -1 or such a chunk; the chunk right after a switch chunk
-   with a case table is its first body chunk and no chunk falls through to it. *)
+   with a case table is its first body chunk and no chunk falls through to it; no switch chunk has an empty table and no
+   default (the parser rejects a switch without cases: part of the source check). *)
 Theorem final_graph_shape :
   forall body w, emit_graph body = Ok w -> src_ok body ->
   let G := finals w in
   WorkShape.dense G /\ G <> [] /\
   (forall c, In c G -> forall d, In d (stargets c) -> (0 < d)%Z /\ In d (ids G)) /\
   (forall c, In c G -> forall d, In d (targets c) -> d = (-1)%Z \/ ((0 < d)%Z /\ In d (ids G))) /\
-  (forall S, In S G -> is_table S -> (0 < cid S)%Z /\ In (cid S + 1)%Z (ids G) /\ forall c, In c G -> tail_of c <> (cid S + 1)%Z).
+  (forall S, In S G -> is_table S -> (0 < cid S)%Z /\ In (cid S + 1)%Z (ids G) /\ forall c, In c G -> tail_of c <> (cid S + 1)%Z) /\
+  Forall nonempty_switch G.
 Proof. exact WorkShape.final_graph_shape. Qed.
 Print Assumptions final_graph_shape.
 
@@ -79,7 +81,7 @@ Print Assumptions optimized_order_step.
    (order duplicate-free and complete, ids distinct, every referenced chunk rendered, chunk statements simple, chunk 0 never a
    jump target, the last chunk of the order does not run off the end) holds whenever the label names of the emitted script are
    pairwise distinct and the three conditions on names chosen by the author hold (names_okb: an AutoVar command is not called
-   end / return / goto; a goto names a label of the script or no label of the emitted script; no switch without cases). *)
+   end / return / goto; a goto names a label of the script or no label of the emitted script). *)
 Theorem wf_render_from_source :
   forall mp name optimize body w code,
   emit_graph body = Ok w -> src_ok body ->
